@@ -430,6 +430,34 @@ func genC18(c *Cfg, emit func([]string)) {
 			}
 		}
 	}
+	// (e') the same with exactly one EMPTY argument at each position, all others well-formed (an empty
+	// issuer, admin, key or fee address must be refused wherever the legacy mapper requires it), as a
+	// first initialisation and over a stored configuration
+	for _, ch := range chans {
+		for n := 2; n <= 5; n++ {
+			for hole := 0; hole < n; hole++ {
+				var as []string
+				for i := 0; i < n; i++ {
+					switch {
+					case i == hole:
+						as = append(as, "-")
+					case i == 1:
+						as = append(as, "=a0")
+					case i >= 2:
+						as = append(as, []string{"=A1", "=A2", "=S1", "=F1"}[(i-2)%4])
+					default:
+						as = append(as, "=x")
+					}
+				}
+				line := "init admin pos " + strings.Join(as, " ")
+				if hole%2 == 0 {
+					emit([]string{"reset " + ch, line, "probe"})
+				} else {
+					emit([]string{"reset " + ch, "init admin json " + render(valid()), "probe", line, "probe"})
+				}
+			}
+		}
+	}
 	// (f) random histories of up to 5 initialisations with several mutations at once
 	nRand := 150
 	if c.Thorough() {
@@ -451,5 +479,5 @@ func genC18(c *Cfg, emit func([]string)) {
 		}
 		emit(h)
 	}
-	c.Rule = "JSON configurations built from a field tree: (a) every listed mutation (absent, null, wrong JSON kind, empty object, empty string, ill-formatted variants around each pattern) of every field of a valid configuration, each preceded and followed by valid initialisations and probes; (b) unknown and duplicate members at every level, alternate field spelling, disabled-function lists; (c) 9 caller certificates (admin OU, mixed-case OU, several OUs, other OU, none, garbage); (d) arguments that are not JSON or JSON of another shape; (e) legacy positional arguments for all 20 known channel names and unknown ones with 0..6 arguments; (f) random histories of up to 5 initialisations with several simultaneous mutations. Observed: Init reply, ledger key __config before/after (stored exactly as given / kept), and the configuration in force on the next invocation (symbol, robot key, admin, issuer, fee setter, disabled functions). non-trivial = contains an initialisation; distinct = sha256"
+	c.Rule = "JSON configurations built from a field tree: (a) every listed mutation (absent, null, wrong JSON kind, empty object, empty string, ill-formatted variants around each pattern) of every field of a valid configuration, each preceded and followed by valid initialisations and probes; (b) unknown and duplicate members at every level, alternate field spelling, disabled-function lists; (c) 9 caller certificates (admin OU, mixed-case OU, several OUs, other OU, none, garbage); (d) arguments that are not JSON or JSON of another shape; (e) legacy positional arguments for all 20 known channel names and unknown ones with 0..6 arguments, and with exactly one empty argument at every position; (f) random histories of up to 5 initialisations with several simultaneous mutations. Observed: Init reply, ledger key __config before/after (stored exactly as given / kept), and the configuration in force on the next invocation (symbol, robot key, admin, issuer, fee setter, disabled functions). non-trivial = contains an initialisation; distinct = sha256"
 }
